@@ -1004,6 +1004,15 @@ func (fv *FnVerifier) stringToBytes(st *State, s string) string {
 	r := fv.allocRef(st)
 	k := fv.elemsKey(types.Typ[types.Uint8])
 	fv.heapSet(st, k, "(store "+fv.heapGet(st, k)+" "+r+" (sarr "+s+"))")
+	// round trip string([]byte(s)) == s (Str values are normalised: zero outside [0,len))
+	{
+		bsort := "Int"
+		if m.BV {
+			bsort = "(_ BitVec 8)"
+		}
+		fv.q.declareFun("str.of", []string{"(Array " + m.idxSort() + " " + bsort + ")", m.idxSort(), m.idxSort()}, "Str")
+		fv.q.assume("(= (str.of (sarr " + s + ") " + m.idx(0) + " (strlen " + s + ")) " + s + ")")
+	}
 	return fmt.Sprintf("(mk-slice (ite (= (strlen %s) %s) %s %s) %s (strlen %s) (strlen %s))", s, m.idx(0), r, r, m.idx(0), s, s)
 }
 
